@@ -11,7 +11,7 @@ git diff -- src > SEED/patch.diff
 git apply -R SEED/patch.diff || exit 2
 /venv/bin/python -W ignore SEED/demo.py > SEED/demo_without.txt 2>&1; without=$?
 git apply SEED/patch.diff || exit 2
-/venv/bin/python -m pytest -q -p no:cacheprovider --timeout=900 --continue-on-collection-errors -n 6 --junitxml=SEED/junit.xml > SEED/pytest.txt 2>&1
+/venv/bin/python -m pytest -q -p no:cacheprovider --timeout=900 --continue-on-collection-errors --junitxml=SEED/junit.xml > SEED/pytest.txt 2>&1
 /venv/bin/python - <<PY
 import json, xml.etree.ElementTree as ET
 base = set(json.load(open('/root/.vp/BASELINE.json'))['stable_pass'])
